@@ -17,7 +17,8 @@ import GoLucene.Proofs.SqlQueryX
 
   WIDE FORM (Proofs/SqlWide*.lean).  Confinement does not need the semantic exclusions of `cleanFilter`:
   `confinedFilter` also admits every shape of the recorded C03 / C04 findings (exclusive / open / quoted-* string
-  ranges, any finite float bounds, mixed-kind bounds, ints beyond int64, `[* TO *]`, LIKE with `%` `_` and
+  ranges, any finite float bounds (two-sided or open: since fix F12 `f:[* TO 0.001]` is `"f" <= 0.00`), mixed-kind
+  bounds, ints beyond int64, `[* TO *]`, LIKE with `%` `_` and
   metacharacters, field names of any length, numbers or strings in field position, bare terms as whole query or
   operand).  `render_parses_wide`: PostgreSQL reads the rendered text as exactly the one predicate `toAstW e`
   (`toAstW_extends`: it is `toAst e` on the clean fragment); `confined_cols_consts`: its columns are fields and its
